@@ -396,6 +396,30 @@ def malformed_cases():
     for a in ("Y", "Z"):
         cases.append((f"table with an infinite entry in {a}", table_inf(a)))
 
+    def _run_with_event(cfg_):
+        """build, add one recovery event, run: a bad parameter that only bites once an inventory is off its goal"""
+        sim_ = scen.build_sim(corpus.mk_sc(tb, cfg_, [corpus.rec_event(tb, cfg, frac=0.3, occ=1, dur=2, tau=3)], T=10))
+        quiet_loop(sim_)
+        for r_ in ("intermediate_demand", "final_demand_unmet", "production_realised"):
+            if not np.isfinite(getattr(sim_, r_).to_numpy(dtype=float)[:10]).all():
+                return          # accepted, non-finite values recorded without report
+        if sim_.has_crashed:
+            raise RuntimeError("reported by the crashed flag")
+        raise RuntimeError("accepted and harmless (finite records): not counted")
+
+    def inconsistent_A_null_column():
+        tbz = corpus.base_table("zero_output", seed=3)
+        io = scen.build_table(tbz)
+        xz = io.x.to_numpy().ravel()
+        if not (xz == 0).any():
+            raise RuntimeError("no zero-output industry in this table: not counted")
+        j = int(np.argmax(xz == 0))
+        A2 = io.A.copy()
+        A2.iloc[0, j] = 0.21
+        io.A = A2
+        ARIOPsiModel(io)
+    cases.append(("technical coefficients inconsistent with Z and x in the column of an industry without output", inconsistent_A_null_column))
+
     def inconsistent_A():
         io = scen.build_table(tb)
         io.A = io.A * 1.5
@@ -409,6 +433,8 @@ def malformed_cases():
     cases.append(("psi above 1 (string 1_2)", lambda: scen.build_model(tb, dict(cfg, psi="1_2"))))
     cases.append(("psi above 1 (numpy float)", lambda: scen.build_model(tb, dict(cfg, psi=np.float64(1.05)))))
     cases.append(("psi of a wrong type", lambda: scen.build_model(tb, dict(cfg, psi=[0.8]))))
+    cases.append(("inventory restoration tau of 0 for one sector (dict form)", lambda: _run_with_event(
+        dict(cfg, restoration_tau={s_: (0 if i_ == 0 else 30) for i_, s_ in enumerate(scen.labels(tb)[1])}))))
     cases.append(("non-integer inventory restoration tau", lambda: scen.build_model(tb, dict(cfg, restoration_tau={s: 2.5 for s in scen.labels(tb)[1]}))))
     cases.append(("inventory restoration tau of a wrong type", lambda: scen.build_model(tb, dict(cfg, restoration_tau="60"))))
     cases.append(("inventory restoration dict missing a sector", lambda: scen.build_model(tb, dict(cfg, restoration_tau={"agri": 60}))))
